@@ -844,9 +844,18 @@ func (p *Parser) parseForEach() ast.Expression {
 		return nil
 	}
 
-	// parse the block
-	p.nextToken()
+	// parse the block, which must start with "{"
+	if !p.expectPeek(token.LBRACE) {
+		msg := fmt.Sprintf("expected { but got %s around %s", p.curToken.Literal, p.curToken.Position())
+		p.errors = append(p.errors, msg)
+		return nil
+	}
 	expression.Body = p.parseBlockStatement()
+	if expression.Body == nil {
+		msg := fmt.Sprintf("unexpected nil expression around %s", p.curToken.Position())
+		p.errors = append(p.errors, msg)
+		return nil
+	}
 
 	return expression
 }
